@@ -1,6 +1,7 @@
 import MiniconfVerif.Gen.Mqtt
 import MiniconfVerif.Model.Mqtt
 import MiniconfVerif.Lemmas.GenTie
+import MiniconfVerif.Lemmas.Mqtt
 
 /-! The request handler of the MQTT client **as translated from miniconf_mqtt/src/lib.rs** (`Gen/Mqtt.lean`: the closure
 `poll()` hands to minimq) is the model's `handleMsg` (on which C07 / C10 / C14 are proved), for the environment answers
@@ -65,6 +66,7 @@ def outsOfActs (m : Req) (canPub : Bool) (getTxt : Option Str) : List (Act Unit 
      | none => []) ++ outsOfActs m canPub getTxt rest
   | .respond a c :: rest => respond m canPub (bodyOfArg a) (codeOfGen c) ++ outsOfActs m canPub getTxt rest
   | .pubTo t p c cd :: rest => Out.pub t (.text p) (codeOfGen c) cd :: outsOfActs m canPub getTxt rest
+  | .pubVal _ _ _ :: rest => outsOfActs m canPub getTxt rest       -- only `iter_dump` records these
 
 def retOfGen : Gen.Mqtt.Ret → Mqtt.Ret
   | .Unchanged => .unchanged | .Changed => .changed
@@ -416,5 +418,94 @@ theorem iter_list_tie {E Es X : Type} (env : Env E Es Pend) (rt : Str) (cd : Opt
       refine ⟨cl', h1, h2, h3, h4, h5, Act.pubTo rt p Code.Continue cd :: new, ?_, ?_⟩
       · rw [h6]; simp
       · simp [outOfAct, codeOfGen, h7]
+
+/-! ## `iter_dump` -/
+
+/-- how the publication of leaf `p`'s value ends, as the environment of `iter_dump_body`: the model's `ops.get` says
+whether the leaf is present; `big` (one entry per present leaf, as in `dumpPump`) whether its value exceeds the buffer -/
+def dumpAns {σ : Type} (ops : SettingsOps σ) (s : σ) (p : Str) (big : List Bool) : Except DumpErr Unit × List Bool :=
+  match ops.get s p with
+  | .value _ => (if big.headD false then .error .TooLarge else .ok (), big.tail)
+  | .err (.absent _) => (.error .Absent, big)
+  | _ => (.error .Other, big)
+
+def dumpAnsAt {σ : Type} (ops : SettingsOps σ) (s : σ) : List Str → List Bool → Except DumpErr Unit × List Bool
+  | p :: _, big => dumpAns ops s p big
+  | [], big => (.ok (), big)
+
+/-- the loop of `iter_dump` as written: `k` passes with a free slot, then `can_publish` fails -/
+def runDumpG {E Es X σ : Type} (env : Env E Es Pend) (ops : SettingsOps σ) (s : σ) (pfx : Str) :
+    Nat → List Bool → Cl E Es Pend X → P (Cl E Es Pend X)
+  | 0, _, cl =>
+    match iter_dump_body env pfx false (.ok ()) cl with
+    | .ret cl' _ => .val cl'
+    | .next cl' => .val cl'
+    | .panic m => .panic m
+  | k + 1, big, cl =>
+    match iter_dump_body env pfx true (dumpAnsAt ops s cl.pending.remaining big).1 cl with
+    | .next cl' => runDumpG env ops s pfx k (dumpAnsAt ops s cl.pending.remaining big).2 cl'
+    | .ret cl' _ => .val cl'
+    | .panic m => .panic m
+
+/-- what a recorded action of the dump puts on the wire -/
+def outOfDumpAct {E Es σ : Type} (ops : SettingsOps σ) (s : σ) : Act E Es → Option Out
+  | .pubTo t p c cd => some (.pub t (.text p) (codeOfGen c) cd)
+  | .pubVal t p cd => match ops.get s p with
+    | .value txt => some (.pub t (.text txt) .ok cd)
+    | _ => none
+  | _ => none
+
+theorem dumpTopic_eq (pfx p : Str) : dumpTopic pfx p = prefixSettings pfx ++ p := rfl
+
+theorem tooLarge_eq : tooLarge = msgTooLarge := rfl
+
+/-- **`iter_dump` as translated is the model's dump pump** (`dumpPump` / `iterDump`, on which `dump_exactly_once` and
+`dump_completes` are proved): per granted slot the next leaf of the walk; absent → nothing, value too large → the Error
+text on the leaf's topic, otherwise its value with code Ok; at the end of the walk the `Complete` transition; cached
+correlation data on every message; no panic as long as the walk yields leaf paths of the type. -/
+theorem iter_dump_tie {E Es X σ : Type} (env : Env E Es Pend) (ops : SettingsOps σ) (s : σ) (pfx : Str)
+    (rt : Option Str) (cd : Option (List Nat)) :
+    ∀ (k : Nat) (rem : List Str) (big : List Bool) (acts0 : List (Act E Es)) (log : List String) (ext : X),
+      LeafPathsOk ops s rem →
+      ∃ cl', runDumpG env ops s pfx k big
+          { st := .Multipart, pending := ⟨rem, rt, cd⟩, acts := acts0, log := log, ext := ext } = .val cl' ∧
+        cl'.pending = ⟨(dumpPump ops pfx s cd rem k big).1, rt, cd⟩ ∧
+        cl'.st = (if (dumpPump ops pfx s cd rem k big).2.2 then SmState.Single else SmState.Multipart) ∧
+        cl'.log = log ∧ cl'.ext = ext ∧
+        ∃ new, cl'.acts = acts0 ++ new ∧ new.filterMap (outOfDumpAct ops s) = (dumpPump ops pfx s cd rem k big).2.1 := by
+  intro k
+  induction k with
+  | zero =>
+    intro rem big acts0 log ext _
+    refine ⟨_, rfl, ?_⟩
+    simp [iter_dump_body, dumpPump]
+  | succ k ih =>
+    intro rem big acts0 log ext hok
+    cases rem with
+    | nil =>
+      simp only [runDumpG, dumpAnsAt, iter_dump_body, ↓reduceIte, processEvent, smStep, dumpPump]
+      refine ⟨_, rfl, ?_⟩
+      simp
+    | cons p rest =>
+      have hok' : LeafPathsOk ops s rest := fun q hq => hok q (List.mem_cons_of_mem _ hq)
+      rcases hok p (List.mem_cons_self) with ⟨txt, hg⟩ | ⟨d, hg⟩
+      · cases hb : big.headD false
+        · obtain ⟨cl', h1, h2, h3, h4, h5, new, h6, h7⟩ :=
+            ih rest big.tail (acts0 ++ [Act.pubVal (dumpTopic pfx p) p cd]) log ext hok'
+          simp only [runDumpG, dumpAnsAt, dumpAns, hg, hb, iter_dump_body, ↓reduceIte, dumpPump, Bool.false_eq_true]
+          refine ⟨cl', h1, h2, h3, h4, h5, Act.pubVal (dumpTopic pfx p) p cd :: new, ?_, ?_⟩
+          · rw [h6]; simp
+          · simp [outOfDumpAct, hg, h7, dumpTopic_eq]
+        · obtain ⟨cl', h1, h2, h3, h4, h5, new, h6, h7⟩ :=
+            ih rest big.tail (acts0 ++ [Act.pubTo (dumpTopic pfx p) tooLarge Code.Error cd]) log ext hok'
+          simp only [runDumpG, dumpAnsAt, dumpAns, hg, hb, iter_dump_body, ↓reduceIte, dumpPump]
+          refine ⟨cl', ?_, h2, h3, h4, h5, Act.pubTo (dumpTopic pfx p) tooLarge Code.Error cd :: new, ?_, ?_⟩
+          · simpa using h1
+          · rw [h6]; simp
+          · simp [outOfDumpAct, codeOfGen, h7, dumpTopic_eq, tooLarge_eq]
+      · obtain ⟨cl', h1, h2, h3, h4, h5, new, h6, h7⟩ := ih rest big acts0 log ext hok'
+        simp only [runDumpG, dumpAnsAt, dumpAns, hg, iter_dump_body, ↓reduceIte, dumpPump]
+        refine ⟨cl', ?_, h2, h3, h4, h5, new, h6, h7⟩
+        simpa using h1
 
 end MiniconfVerif.GenTie
